@@ -24,10 +24,11 @@ theorem beginCollect_const (p : Option String) (s₁ s₂ : MState)
     step (.beginCollect p) s₁ = step (.beginCollect p) s₂ := by
   simp [step, mBegin, hn, hf]
 
-/-- **session isolation, any client**: a session (`beginCollect`, any calls — each may depend on what
+/-- **session isolation, any client** (partial: the two histories must agree on the two things
+    `beginCollect` does not reset, the flush threshold and the files on disk): a session (`beginCollect`, any calls — each may depend on what
     the earlier ones returned —, `endCollect`) returns the same values and leaves the same attributes
     and files from any two earlier histories that agree on the threshold and on the files. -/
-theorem session_isolated (p : Option String) (client : Prog) (s₁ s₂ : MState)
+theorem session_isolated_partial (p : Option String) (client : Prog) (s₁ s₂ : MState)
     (hn : s₁.numCachedUses = s₂.numCachedUses) (hf : s₁.fs = s₂.fs) :
     session p client s₁ = session p client s₂ := by
   unfold session
@@ -250,11 +251,12 @@ theorem kernel_formatU_witness :
       (fun x => numIters (fileOf x.2 "p" "K" "iter")) = some 0 := by
   decide
 
-/-- **session isolation for kernels, counter side**: from ANY two earlier states (different
+/-- **session isolation for kernels, counter side** (partial: the collecting-only assertion must not
+    fire; iteration counts only for ranks the kernel reaches): from ANY two earlier states (different
     thresholds, different files, sessions left open, …) the collecting session around the same
     kernel completes with the same tensor, the same value of every counter, and the same iteration
     count in the file of every declared trace whose rank the kernel reaches. -/
-theorem kernel_session_isolated (k : Kernel) (z : ATree) (ops : List Operand) (p : String) (keys : List TKey)
+theorem kernel_session_isolated_partial (k : Kernel) (z : ATree) (ops : List Operand) (p : String) (keys : List TKey)
     (s₁ s₂ : MState) (hok : assertsOk (kernelEvents k z ops) = true) :
     ∃ s₁' s₂', kernelSession k z ops p keys s₁ = some (runPlain k z ops, s₁') ∧
       kernelSession k z ops p keys s₂ = some (runPlain k z ops, s₂') ∧
@@ -287,5 +289,72 @@ theorem kernel_session_isolated (k : Kernel) (z : ATree) (ops : List Operand) (p
   · intro r ty hk hreg
     rw [numIters_eq_uses p keys _ s₁ t1 rs1 hin h1 r ty hk hreg,
       numIters_eq_uses p keys _ s₂ t2 rs2 hin h2 r ty hk hreg]
+
+/-! ## non-vacuity: the hypotheses are met by non-trivial values, the conclusions say something -/
+section
+/-- a state left by an earlier, unfinished session -/
+private def dirty : MState :=
+  { collecting := true, fiberLabel := [("K", 3)], iteration := some [4], lineOrder := some [("K", 0)],
+    loopOrder := some ["K"], metrics := some [("Compute", [("payload_mul", 7)])], point := some [2],
+    pfx := some "q", traces := [(("K", "iter"), ⟨some [.dat [1, 2, 3]], none, true⟩)] }
+
+-- beginCollect_const / session_isolated: two very different histories meet the hypotheses
+example : dirty.numCachedUses = MState.init.numCachedUses ∧ dirty.fs = MState.init.fs ∧ dirty ≠ MState.init := by decide
+example : step (.beginCollect (some "p")) dirty = step (.beginCollect (some "p")) MState.init :=
+  beginCollect_const _ _ _ rfl rfl
+
+/-- a structured session: two traces, a two-level loop nest, counters on a padded line name -/
+private def body1 : List MOp :=
+  [.registerRank "M", .addUse "M" 0 0 "iter" none, .registerRank "K", .getLabel "K",
+   .addUse "K" 3 0 "iter" none, .incCount " Compute " "payload_mul" 1, .incIter "K",
+   .addUse "K" 5 1 "iter" none, .incCount "Compute" "payload_mul" 1, .incCount "Compute" "payload_add" 1, .incIter "K",
+   .addUse "K" 7 2 "iter" none, .incIter "K", .endIter "K", .incIter "M", .endIter "M"]
+private def keys1 : List TKey := [("K", "iter"), ("M", "iter"), ("N", "iter")]
+/-- an earlier session: flush threshold 2, the same prefix and trace, one row -/
+private def hist1 : List MOp :=
+  [.setNumCachedUses 2] ++ openOps "p" [("K", "iter"), ("N", "iter")] ++
+    [.registerRank "N", .addUse "N" 1 0 "iter" none, .registerRank "K", .addUse "K" 9 0 "iter" none, .endCollect]
+
+-- dump_counts_exact / numIters_eq_uses: the run exists (from the state the earlier session left:
+-- threshold 2, so the three K rows are flushed in two pieces), K is registered, 3 uses, 2 muls
+example : ((runOps hist1 MState.init).bind (fun h => runOps (openOps "p" keys1 ++ body1 ++ [.endCollect]) h.2)).map
+    (fun x => (numIters (fileOf x.2 "p" "K" "iter"), count x.2 "Compute" "payload_mul",
+      -- N is declared but never registered: the earlier session's row is still there
+      numIters (fileOf x.2 "p" "N" "iter"))) = some (3, 2, 1) := by decide
+example : (∀ op ∈ body1, op.inBody = true) ∧ registers "K" body1 = true ∧ nUse "K" "iter" body1 = 3 ∧
+    registers "N" body1 = false ∧ sumInc "Compute" "payload_mul" body1 = 2 := by decide
+
+/-- column sums `Z_k = Σ_m A_mk`: the output fiber is revisited for every `m` -/
+private def kCol : Kernel := { loops := ["M", "K"], out := ["K"], declared := true }
+private def aCol : Operand :=
+  { ranks := ["M", "K"], t := ⟨2, [((0 : Int), [((0 : Int), (1 : Int)), ((1 : Int), (2 : Int))]), ((1 : Int), [((0 : Int), (-1 : Int)), ((2 : Int), (4 : Int))])]⟩ }
+
+-- kernel_transparent_*: the assertion is reached (the output is revisited while non-empty) and passes
+example : assertsOk (kernelEvents kCol ⟨1, []⟩ [aCol]) = true ∧
+    (kernelEvents kCol ⟨1, []⟩ [aCol]).any (fun e => match e with | .assertShape _ _ => true | _ => false) = true := by
+  decide
+-- … the sum at k = 0 cancels (1 + -1) and is removed, 4 updates, 1 addition on a non-empty accumulator,
+-- 2 bodies at M and 4 at K; the session exists and reports exactly that
+example : (show List (Int × Int) from castT 1 (runPlain kCol ⟨1, []⟩ [aCol]) []) = [((1 : Int), (2 : Int)), ((2 : Int), (4 : Int))] ∧
+    nUpd (kernelEvents kCol ⟨1, []⟩ [aCol]) = 4 ∧ nAdd (kernelEvents kCol ⟨1, []⟩ [aCol]) = 1 ∧
+    nBody "M" (kernelEvents kCol ⟨1, []⟩ [aCol]) = 2 ∧ nBody "K" (kernelEvents kCol ⟨1, []⟩ [aCol]) = 4 := by decide
+example : (kernelSession kCol ⟨1, []⟩ [aCol] "p" [("K", "iter"), ("M", "iter")] dirty).map
+    (fun x => (count x.2 "Compute" "payload_update", count x.2 "Compute" "payload_add",
+      numIters (fileOf x.2 "p" "K" "iter"), numIters (fileOf x.2 "p" "M" "iter"))) = some (4, 1, 4, 2) := by decide
+example : (∀ o ∈ [aCol], o.uShape = none) ∧ registers "K" (callsOf (kernelEvents kCol ⟨1, []⟩ [aCol])) = true := by decide
+
+/-- matrix multiply `Z_mn = Σ_k A_mk B_kn` in the order M, K, N (intersections are well-founded
+    recursions: tested with `#guard`, not `decide`) -/
+private def kMM : Kernel := { loops := ["M", "K", "N"], out := ["M", "N"], declared := true }
+private def aMM : Operand := { ranks := ["M", "K"], t := ⟨2, [((0 : Int), [((0 : Int), (1 : Int)), ((1 : Int), (2 : Int))]), ((1 : Int), [((1 : Int), (3 : Int))])]⟩ }
+private def bMM : Operand := { ranks := ["K", "N"], t := ⟨2, [((0 : Int), [((0 : Int), (1 : Int))]), ((1 : Int), [((0 : Int), (4 : Int)), ((1 : Int), (5 : Int))])]⟩ }
+#guard (kernelSession kMM ⟨2, []⟩ [aMM, bMM] "p" [("K", "iter"), ("N", "iter")] MState.init).map
+    (fun x => (count x.2 "Compute" "payload_mul", count x.2 "Compute" "payload_update", count x.2 "Compute" "payload_add",
+      numIters (fileOf x.2 "p" "K" "iter"), numIters (fileOf x.2 "p" "N" "iter"))) == some (5, 5, 1, 3, 5)
+#guard nMul (kernelEvents kMM ⟨2, []⟩ [aMM, bMM]) == 5 && nBody "N" (kernelEvents kMM ⟨2, []⟩ [aMM, bMM]) == 5 &&
+  assertsOk (kernelEvents kMM ⟨2, []⟩ [aMM, bMM])
+-- the same kernel into an output created without a shape aborts at the second k
+#guard (kernelSession { kMM with declared := false } ⟨2, []⟩ [aMM, bMM] "p" [] MState.init).isNone
+end
 
 end Ft.C15
